@@ -112,7 +112,7 @@ def to_coq(c):
     if o.get("crash") or o.get("outhex"):
         return None
     op = c["op"]
-    if op == "file":
+    if op in ("file", "gort", "runes"):
         return "CUtf8 [] []"      # compared by the oracle only
     if op == "utf8":
         return "CUtf8 %s %s" % (inbytes(c), nlist(o.get("out") or []))
